@@ -45,7 +45,7 @@ CircIds == {"c1", "c2", "c3", "cy", "d1"}  \* d1: c1.update_template(name="d1") 
 (* c1: a and b share one NodeTemplate object, c shares only the operator; c2: an operator with the same *name* as
    c1's; c3: shares the template object t1 with c1 and has an operator of the same *structure* under another name *)
 CircNodes0 == [c1 |-> <<[n |-> "a", t |-> "t1"], [n |-> "b", t |-> "t1"], [n |-> "c", t |-> "t4"]>>,
-               c2 |-> <<[n |-> "a", t |-> "t2"], [n |-> "b", t |-> "t6"]>>,      \* b overrides k of the operator that a uses as declared
+               c2 |-> <<[n |-> "a", t |-> "t6"], [n |-> "b", t |-> "t2"]>>,      \* a (applied first) overrides k of the operator that b uses as declared
                c3 |-> <<[n |-> "a", t |-> "t3"], [n |-> "b", t |-> "t1"]>>,
                cy |-> <<[n |-> "a", t |-> "t5"]>>,
                d1 |-> <<[n |-> "a", t |-> "t1"], [n |-> "b", t |-> "t1"], [n |-> "c", t |-> "t4"]>>]
